@@ -1,4 +1,5 @@
 import Cppcms.C16.Lemmas
+import Cppcms.C16.Compress
 /-!
 # C16 — property theorems
 
@@ -6,8 +7,11 @@ import Cppcms.C16.Lemmas
 HMACs built on them equal the values defined by the standards, a digest or HMAC object is ready for
 a new message after each read-out; AES-CBC decryption undoes encryption on whole blocks."
 
-`md5Hash` / `sha1Hash` are `Spec.mdHash` (pad, split, fold — written from the standards) over the
-compression functions assembled from the translated source.
+`Spec.md5` is RFC 1321 transcribed independently of the source (padding, block splitting, the 64
+operations with the RFC's own tables); `md5_compress_eq_rfc1321` shows that the compression function
+assembled from the translated `SET(...)` lines, `T1..T64`, `F/G/H/I` and `ROTATE_LEFT` is that
+function.  `sha1Hash` is `Spec.mdHash` (pad, split, fold — written from the standard) over the
+compression function assembled from the translated `sha1::process_block()`.
 SHA-2 and the AES block function are OpenSSL's: they enter as the abstract lawful digest `H`
 (`hmac_eq_rfc2104`) and the abstract block permutation `E`/`D` (`cbc_*`).
 -/
@@ -28,19 +32,29 @@ def md5Laws (buf0 : Bytes) (h : buf0.length = 64) : HashLaws (md5Obj buf0) md5Ha
   block_ok := by show Gen.md5BlockSize < 2 ^ 31; decide
   ok_mono := fun _ _ h1 h2 => Nat.lt_of_le_of_lt h1 h2
 
-/-- every way of feeding a message to a fresh (or re-initialised) MD5 object gives the MD5 of the
-concatenation, independent of stale buffer content -/
+/-- `md5_process` as translated (64 `SET` lines, `T1..T64`, `F/G/H/I`, `ROTATE_LEFT`, the byte-to-word
+expression, the final additions) is the compression function of RFC 1321 §3.4 -/
+theorem md5_compress_eq_rfc1321 (a b c d : Nat) (blk : Bytes) :
+    md5Process [a, b, c, d] blk = Spec.md5Compress [a, b, c, d] blk :=
+  md5Process_eq a b c d blk
+
+theorem md5Hash_eq : md5Hash = Spec.md5 := funext md5Hash_eq_spec
+
+/-- every way of feeding a message to a fresh (or re-initialised) MD5 object gives the RFC 1321 MD5 of
+the concatenation, independent of stale buffer content -/
 theorem md5_stream_eq_spec (buf0 : Bytes) (h : buf0.length = 64) (chunks : List Bytes)
     (hc : ∀ c ∈ chunks, c.length < 2 ^ 31) :
-    (md5Readout (chunks.foldl md5Append (md5Init buf0))).1 = md5Hash chunks.flatten := by
+    (md5Readout (chunks.foldl md5Append (md5Init buf0))).1 = Spec.md5 chunks.flatten := by
   have := (md5Laws buf0 h).foldl chunks _ [] (md5Laws buf0 h).fresh hc
+  rw [← md5Hash_eq]
   exact ((md5Laws buf0 h).readout _ _ this).1
 
 /-- reuse after read-out: one object, any number of messages, each fed in any pieces -/
 theorem md5_session_eq_spec (buf0 : Bytes) (h : buf0.length = 64) (msgs : List (List Bytes))
     (hc : ∀ cs ∈ msgs, ∀ c ∈ cs, c.length < 2 ^ 31) :
-    (md5Obj buf0).session (md5Obj buf0).fresh msgs = msgs.map fun cs => md5Hash cs.flatten :=
-  (md5Laws buf0 h).session msgs _ (md5Laws buf0 h).fresh hc
+    (md5Obj buf0).session (md5Obj buf0).fresh msgs = msgs.map fun cs => Spec.md5 cs.flatten := by
+  rw [← md5Hash_eq]
+  exact (md5Laws buf0 h).session msgs _ (md5Laws buf0 h).fresh hc
 
 /-- documented excluded point of the bound above: `md5_digets::append(ptr, size)` passes `size` as an
 `int`; a single append of exactly 2^31 bytes is dropped without any effect -/
@@ -119,8 +133,9 @@ theorem hmac_eq_rfc2104 {σ : Type} (H : HashObj σ) (hash : Bytes → Bytes) (o
 theorem hmac_md5_eq_rfc2104 (buf0 : Bytes) (h : buf0.length = 64) (key : Bytes) (hk : key.length < 2 ^ 31)
     (msgs : List (List Bytes)) (hc : ∀ cs ∈ msgs, ∀ c ∈ cs, c.length < 2 ^ 31) :
     (hmacObj (md5Obj buf0) key).session (hmacNew (md5Obj buf0) key) msgs =
-      msgs.map fun cs => Spec.hmac md5Hash 64 key cs.flatten :=
-  hmac_eq_rfc2104 _ _ _ (md5Laws buf0 h) key hk msgs hc
+      msgs.map fun cs => Spec.hmac Spec.md5 64 key cs.flatten := by
+  rw [← md5Hash_eq]
+  exact hmac_eq_rfc2104 _ _ _ (md5Laws buf0 h) key hk msgs hc
 
 theorem hmac_sha1_eq_rfc2104 (block0 : Bytes) (h : block0.length = 64) (key : Bytes) (msgs : List (List Bytes)) :
     (hmacObj (sha1Obj block0) key).session (hmacNew (sha1Obj block0) key) msgs =
@@ -181,5 +196,33 @@ theorem key_hex_strict (s : Bytes) :
       · simp [hp.1 hall, eq_comm]
     · have : s.length % 2 = 1 := by omega
       simp [this]
+
+/-! ## test vectors — tests of my reading of the standards (`Spec`), not part of the property -/
+
+-- RFC 1321 A.5
+example : Spec.md5 [] = [212, 29, 140, 217, 143, 0, 178, 4, 233, 128, 9, 152, 236, 248, 66, 126] := by decide +kernel  -- d41d8cd98f00b204e9800998ecf8427e
+example : Spec.md5 [97] = [12, 193, 117, 185, 192, 241, 182, 168, 49, 195, 153, 226, 105, 119, 38, 97] := by decide +kernel  -- 0cc175b9c0f1b6a831c399e269772661
+example : Spec.md5 [97, 98, 99] = [144, 1, 80, 152, 60, 210, 79, 176, 214, 150, 63, 125, 40, 225, 127, 114] := by decide +kernel  -- 900150983cd24fb0d6963f7d28e17f72
+example : Spec.md5 [109, 101, 115, 115, 97, 103, 101, 32, 100, 105, 103, 101, 115, 116] = [249, 107, 105, 125, 124, 183, 147, 141, 82, 90, 47, 49, 170, 241, 97, 208] := by decide +kernel  -- f96b697d7cb7938d525a2f31aaf161d0
+example : Spec.md5 [97, 98, 99, 100, 101, 102, 103, 104, 105, 106, 107, 108, 109, 110, 111, 112, 113, 114, 115, 116, 117, 118, 119, 120, 121, 122] = [195, 252, 211, 215, 97, 146, 228, 0, 125, 251, 73, 108, 202, 103, 225, 59] := by decide +kernel  -- c3fcd3d76192e4007dfb496cca67e13b
+example : Spec.md5 [65, 66, 67, 68, 69, 70, 71, 72, 73, 74, 75, 76, 77, 78, 79, 80, 81, 82, 83, 84, 85, 86, 87, 88, 89, 90, 97, 98, 99, 100, 101, 102, 103, 104, 105, 106, 107, 108, 109, 110, 111, 112, 113, 114, 115, 116, 117, 118, 119, 120, 121, 122, 48, 49, 50, 51, 52, 53, 54, 55, 56, 57] = [209, 116, 171, 152, 210, 119, 217, 245, 165, 97, 28, 44, 159, 65, 157, 159] := by decide +kernel  -- d174ab98d277d9f5a5611c2c9f419d9f
+example : Spec.md5 [49, 50, 51, 52, 53, 54, 55, 56, 57, 48, 49, 50, 51, 52, 53, 54, 55, 56, 57, 48, 49, 50, 51, 52, 53, 54, 55, 56, 57, 48, 49, 50, 51, 52, 53, 54, 55, 56, 57, 48, 49, 50, 51, 52, 53, 54, 55, 56, 57, 48, 49, 50, 51, 52, 53, 54, 55, 56, 57, 48, 49, 50, 51, 52, 53, 54, 55, 56, 57, 48, 49, 50, 51, 52, 53, 54, 55, 56, 57, 48] = [87, 237, 244, 162, 43, 227, 201, 85, 172, 73, 218, 46, 33, 7, 182, 122] := by decide +kernel  -- 57edf4a22be3c955ac49da2e2107b67a
+-- FIPS 180 examples
+example : Spec.sha1 [97, 98, 99] = [169, 153, 62, 54, 71, 6, 129, 106, 186, 62, 37, 113, 120, 80, 194, 108, 156, 208, 216, 157] := by decide +kernel  -- a9993e364706816aba3e25717850c26c9cd0d89d
+example : Spec.sha1 [97, 98, 99, 100, 98, 99, 100, 101, 99, 100, 101, 102, 100, 101, 102, 103, 101, 102, 103, 104, 102, 103, 104, 105, 103, 104, 105, 106, 104, 105, 106, 107, 105, 106, 107, 108, 106, 107, 108, 109, 107, 108, 109, 110, 108, 109, 110, 111, 109, 110, 111, 112, 110, 111, 112, 113] = [132, 152, 62, 68, 28, 59, 210, 110, 186, 174, 74, 161, 249, 81, 41, 229, 229, 70, 112, 241] := by decide +kernel  -- 84983e441c3bd26ebaae4aa1f95129e5e54670f1
+-- RFC 2202 (test cases 1, 2 and 6: key longer than the block)
+example : Spec.hmac Spec.md5 64 [11, 11, 11, 11, 11, 11, 11, 11, 11, 11, 11, 11, 11, 11, 11, 11] [72, 105, 32, 84, 104, 101, 114, 101] = [146, 148, 114, 122, 54, 56, 187, 28, 19, 244, 142, 248, 21, 139, 252, 157] := by decide +kernel
+example : Spec.hmac Spec.md5 64 [74, 101, 102, 101] [119, 104, 97, 116, 32, 100, 111, 32, 121, 97, 32, 119, 97, 110, 116, 32, 102, 111, 114, 32, 110, 111, 116, 104, 105, 110, 103, 63] = [117, 12, 120, 62, 106, 176, 181, 3, 234, 168, 110, 49, 10, 93, 183, 56] := by decide +kernel
+example : Spec.hmac Spec.md5 64 [170, 170, 170, 170, 170, 170, 170, 170, 170, 170, 170, 170, 170, 170, 170, 170, 170, 170, 170, 170, 170, 170, 170, 170, 170, 170, 170, 170, 170, 170, 170, 170, 170, 170, 170, 170, 170, 170, 170, 170, 170, 170, 170, 170, 170, 170, 170, 170, 170, 170, 170, 170, 170, 170, 170, 170, 170, 170, 170, 170, 170, 170, 170, 170, 170, 170, 170, 170, 170, 170, 170, 170, 170, 170, 170, 170, 170, 170, 170, 170] [84, 101, 115, 116, 32, 85, 115, 105, 110, 103, 32, 76, 97, 114, 103, 101, 114, 32, 84, 104, 97, 110, 32, 66, 108, 111, 99, 107, 45, 83, 105, 122, 101, 32, 75, 101, 121, 32, 45, 32, 72, 97, 115, 104, 32, 75, 101, 121, 32, 70, 105, 114, 115, 116] = [107, 26, 183, 254, 75, 215, 191, 143, 11, 98, 230, 206, 97, 185, 208, 205] := by decide +kernel
+example : Spec.hmac Spec.sha1 64 [11, 11, 11, 11, 11, 11, 11, 11, 11, 11, 11, 11, 11, 11, 11, 11, 11, 11, 11, 11] [72, 105, 32, 84, 104, 101, 114, 101] = [182, 23, 49, 134, 85, 5, 114, 100, 226, 139, 192, 182, 251, 55, 140, 142, 241, 70, 190, 0] := by decide +kernel
+example : Spec.hmac Spec.sha1 64 [74, 101, 102, 101] [119, 104, 97, 116, 32, 100, 111, 32, 121, 97, 32, 119, 97, 110, 116, 32, 102, 111, 114, 32, 110, 111, 116, 104, 105, 110, 103, 63] = [239, 252, 223, 106, 229, 235, 47, 162, 210, 116, 22, 213, 241, 132, 223, 156, 37, 154, 124, 121] := by decide +kernel
+example : Spec.hmac Spec.sha1 64 [170, 170, 170, 170, 170, 170, 170, 170, 170, 170, 170, 170, 170, 170, 170, 170, 170, 170, 170, 170, 170, 170, 170, 170, 170, 170, 170, 170, 170, 170, 170, 170, 170, 170, 170, 170, 170, 170, 170, 170, 170, 170, 170, 170, 170, 170, 170, 170, 170, 170, 170, 170, 170, 170, 170, 170, 170, 170, 170, 170, 170, 170, 170, 170, 170, 170, 170, 170, 170, 170, 170, 170, 170, 170, 170, 170, 170, 170, 170, 170] [84, 101, 115, 116, 32, 85, 115, 105, 110, 103, 32, 76, 97, 114, 103, 101, 114, 32, 84, 104, 97, 110, 32, 66, 108, 111, 99, 107, 45, 83, 105, 122, 101, 32, 75, 101, 121, 32, 45, 32, 72, 97, 115, 104, 32, 75, 101, 121, 32, 70, 105, 114, 115, 116] = [170, 74, 229, 225, 82, 114, 208, 14, 149, 112, 86, 55, 206, 138, 59, 85, 237, 64, 33, 18] := by decide +kernel
+-- the model's state machines on a message cut across a block boundary, with a dirty buffer, used twice
+example : (md5Obj (List.replicate 64 0xee)).session (md5Obj (List.replicate 64 0xee)).fresh [[[0, 1, 2], [], [3, 4, 5, 6, 7, 8, 9, 10, 11, 12, 13, 14, 15, 16, 17, 18, 19, 20, 21, 22, 23, 24, 25, 26, 27, 28, 29, 30, 31, 32, 33, 34, 35, 36, 37, 38, 39, 40, 41, 42, 43, 44, 45, 46, 47, 48, 49, 50, 51, 52, 53, 54, 55, 56, 57, 58, 59, 60, 61, 62, 63, 64, 65], [66, 67, 68, 69]], [[97, 98, 99]]] = [[95, 31, 95, 100, 184, 68, 0, 251, 154, 214, 216, 236, 217, 193, 66, 160], [144, 1, 80, 152, 60, 210, 79, 176, 214, 150, 63, 125, 40, 225, 127, 114]] := by decide +kernel
+example : (sha1Obj (List.replicate 64 0xee)).session (sha1Obj (List.replicate 64 0xee)).fresh [[[0, 1, 2], [], [3, 4, 5, 6, 7, 8, 9, 10, 11, 12, 13, 14, 15, 16, 17, 18, 19, 20, 21, 22, 23, 24, 25, 26, 27, 28, 29, 30, 31, 32, 33, 34, 35, 36, 37, 38, 39, 40, 41, 42, 43, 44, 45, 46, 47, 48, 49, 50, 51, 52, 53, 54, 55, 56, 57, 58, 59, 60, 61, 62, 63, 64, 65], [66, 67, 68, 69]], [[97, 98, 99]]] = [[194, 72, 135, 146, 79, 146, 173, 172, 90, 227, 103, 153, 93, 18, 105, 28, 102, 43, 115, 98], [169, 153, 62, 54, 71, 6, 129, 106, 186, 62, 37, 113, 120, 80, 194, 108, 156, 208, 216, 157]] := by decide +kernel
+-- hex keys
+example : setHex [0x30, 0x61, 0x46, 0x66] = .ok [0x0a, 0xff] := by decide
+example : setHex [0x30, 0x61, 0x46] = .oddLength := by decide
+example : setHex [0x30, 0x67] = .invalidChar := by decide
 
 end Cppcms.C16.Props
